@@ -266,6 +266,7 @@ class State:
     cond_vals: List[Tuple[Cond, bool]] = field(default_factory=list)
     notes: List[str] = field(default_factory=list)
     raised: Optional[tuple] = None
+    body_other: List[Tuple[str, int]] = field(default_factory=list)
 
     def clone(self) -> "State":
         s = State()
@@ -289,6 +290,7 @@ class State:
         s.cond_vals = list(self.cond_vals)
         s.notes = list(self.notes)
         s.raised = self.raised
+        s.body_other = list(self.body_other)
         return s
 
     # ------------------------------------------------------------------ stack primitives
